@@ -3,6 +3,7 @@ package props
 // C05 - concurrent cell and model execution is race-free and schedule-independent.
 
 import (
+	"strings"
 	"bytes"
 	"fmt"
 	"runtime"
@@ -30,6 +31,10 @@ func init() {
 		Needs: []string{"owsim-race"},
 		Workloads: []core.Workload{
 			{Name: "race", Variant: "race", N: core.Tiered(41*3*2, 41*3*50), Run: c05Race, Env: []string{"GORACE=halt_on_error=1 exitcode=66"}},
+			// what ow-sim does with a generation, in-process under the race detector: the Run calls of two to four DIFFERENT
+			// model types at the same time, each on its own arrays, compared bit for bit with the same calls made one after
+			// another (package-level state shared between model types shows here and nowhere else)
+			{Name: "race-models", Variant: "race", N: core.Tiered(120, 4000), Run: c05RaceModels, Env: []string{"GORACE=halt_on_error=1 exitcode=66"}},
 			{Name: "sched", Variant: "plain", N: core.Tiered(41*2, 41*60), Run: c05Sched},
 			{Name: "owsim-race", Variant: "plain", N: core.Tiered(32, 300), Run: c05OwsimRace, TimeoutS: 300, MaxProcs: 12},
 		},
@@ -70,6 +75,71 @@ func c05Race(c *core.Ctx) {
 		}
 		c.Count("race_build_runs", 1)
 		c.Count("goroutines_spawned", float64(N))
+	}
+}
+
+func c05RaceModels(c *core.Ctx) {
+	names := ModelNames()
+	k := c.R.IntRange(2, 4)
+	perm := c.R.Perm(len(names))
+	var runs []*MRun
+	var models []string
+	for i := 0; i < k; i++ {
+		m := names[perm[i]]
+		N := []int{1, 2, 5}[c.R.Intn(3)]
+		wc := 0
+		if needsWidthClass(m) {
+			wc = widthClassFor(c.R, N)
+		}
+		runs = append(runs, GenRun(m, c.R, N, N, N, c.R.IntRange(1, 40), wc))
+		models = append(models, m)
+	}
+	procs := []int{2, 4, 16}[c.R.Intn(3)]
+	c.Begin(map[string]interface{}{"model": strings.Join(models, "+"), "runs": runs, "gomaxprocs": procs})
+	c.Class(fmt.Sprintf("race-models/%d/%s", k, models[0]))
+	old := runtime.GOMAXPROCS(procs)
+	defer runtime.GOMAXPROCS(old)
+	// alone, one after another
+	alone := make([]*MOut, k)
+	for i, r := range runs {
+		o, err := Execute(r)
+		if err != nil {
+			c.Violate("prepare", models[i], err.Error())
+			return
+		}
+		alone[i] = o
+	}
+	for rep := 0; rep < 3; rep++ {
+		together := make([]*MOut, k)
+		preps := make([]*Prepared, k)
+		for i, r := range runs {
+			p, err := Prepare(r)
+			if err != nil {
+				c.Violate("prepare", models[i], err.Error())
+				return
+			}
+			preps[i] = p
+		}
+		var wg sync.WaitGroup
+		for i := range preps {
+			wg.Add(1)
+			go func(i int) {
+				defer wg.Done()
+				together[i] = preps[i].Exec()
+			}(i)
+		}
+		wg.Wait()
+		for i := range runs {
+			if d, bad := diffBits3(alone[i].Out, together[i].Out); bad {
+				c.Violate("concurrent-models-differ", models[i], fmt.Sprintf("Run of %s while %v run at the same time differs from the same call made alone: outputs %s", models[i], models, d))
+				return
+			}
+			if d, bad := diffBits2(alone[i].States, together[i].States); bad {
+				c.Violate("concurrent-models-differ", models[i], fmt.Sprintf("Run of %s while %v run at the same time differs from the same call made alone: final states %s", models[i], models, d))
+				return
+			}
+		}
+		c.Count("concurrent_generations_run", 1)
 	}
 }
 
